@@ -122,10 +122,7 @@ class MPSBackendImpl:
             "Consider using the emu_sv backend."
         )
 
-        self.omega = pulser_data.omega
-        self.delta = pulser_data.delta
-        self.phi = pulser_data.phi
-        self.timestep_count: int = self.omega.shape[0]
+        self.timestep_count: int = pulser_data.omega.shape[0]
         self.has_lindblad_noise = len(pulser_data.lindblad_ops) > 0
         self.eigenstates = pulser_data.eigenstates
         self.dim = pulser_data.dim
@@ -138,6 +135,10 @@ class MPSBackendImpl:
             if self.config.optimize_qubit_ordering
             else optimat.eye_permutation(self.qubit_count)
         )
+        # MPS site k holds atom qubit_permutation[k]: the per-atom drives follow
+        self.omega = pulser_data.omega[:, self.qubit_permutation]
+        self.delta = pulser_data.delta[:, self.qubit_permutation]
+        self.phi = pulser_data.phi[:, self.qubit_permutation]
 
         self.hamiltonian_type = pulser_data.hamiltonian_type
         self.time = time.time()
@@ -218,7 +219,9 @@ class MPSBackendImpl:
         # has_state_preparation_error
         if self.pulser_data.state_prep_error > 0.0:
             bad_atoms = self.pulser_data.bad_atoms
-            self.well_prepared_qubits_filter = torch.logical_not(torch.tensor(bad_atoms))
+            self.well_prepared_qubits_filter = torch.logical_not(
+                torch.tensor(bad_atoms)[self.qubit_permutation]
+            )
         else:
             self.well_prepared_qubits_filter = None
         logging.getLogger("emulators").debug(
